@@ -369,6 +369,21 @@ impl<B> Call<WithBody, B> {
     pub fn into_receive(self) -> Result<Call<RecvResponse, B>, Error> {
         self.do_into_receive()
     }
+
+    /// Proceed to receiving a response without sending the body.
+    ///
+    /// Used when the server rejects an `expect: 100-continue` request.
+    pub(crate) fn into_receive_skip_body(self) -> Call<RecvResponse, B> {
+        Call {
+            request: self.request,
+            analyzed: self.analyzed,
+            state: BodyState {
+                phase: Phase::RecvResponse,
+                ..self.state
+            },
+            _ph: PhantomData,
+        }
+    }
 }
 
 fn try_write_prelude<B>(
